@@ -147,6 +147,59 @@ def catalogue():
     add('det', lambda A, x: A.det(x), shape=(2, 2), group='linalg', tags=['lu'])
     add('logdet', lambda A, x: A.logdet(x), shape=(2, 2), group='linalg', tags=['lu', 'posdet'])
     add('det3', lambda A, x: A.det(x), shape=(3, 3), group='linalg', tags=['lu', 'slow'])
+    # ---- factorisations (zeroth coefficient built from its factors, see props/c08.py) ---
+    # outputs are invariant under the sign convention of the factors (column j of Q and row j
+    # of R flip together), so that the float build (LAPACK's convention) and the symbolic run
+    # (the stub's convention) compute the same function
+    def _qr(A, x):
+        Q, R = A.qr(x)
+        K = R.shape[0]
+        y = A.sum(A.outer(Q[:, 0], R[0, :]) * A.c['c0'])
+        for j in range(1, K):
+            y = y + A.sum(A.outer(Q[:, j], R[j, :]) * A.c['c%d' % j])
+        return y
+
+    def _qr_full(A, x):
+        Q, R = A.qr_full(x)
+        N = R.shape[1]
+        y = A.sum(A.outer(Q[:, 0], R[0, :]) * A.c['c0'])
+        for j in range(1, N):
+            y = y + A.sum(A.outer(Q[:, j], R[j, :]) * A.c['c%d' % j])
+        return y
+
+    def _chol(A, x):
+        L = A.cholesky(x)
+        return A.sum(L * A.c['cl'])
+
+    def _eigh(A, x):
+        l, Q = A.eigh(x)
+        y = A.sum(l * A.c['cv'])
+        for j in range(2):
+            y = y + A.sum(A.outer(Q[:, j], Q[:, j]) * A.c['c%d' % j])
+        return y
+
+    def _eigh_vals(A, x):
+        l, Q = A.eigh(x)
+        return l * l
+
+    def _lu(A, x):
+        W, L, U = A.lu(x)
+        return A.sum(L * A.c['cl']) + A.sum(U * A.c['cu'])
+
+    add('qr(2x2)', _qr, shape=(2, 2), group='factor', tags=['fac:qr'], consts={'c0': (2, 2), 'c1': (2, 2)})
+    add('qr(3x2)', _qr, shape=(3, 2), group='factor', tags=['fac:qr', 'slow'], consts={'c0': (3, 2), 'c1': (3, 2)})
+    add('qr(2x3)', _qr, shape=(2, 3), group='factor', tags=['fac:qr'], consts={'c0': (2, 3), 'c1': (2, 3)})
+    add('qr_full(3x2)', _qr_full, shape=(3, 2), group='factor', tags=['fac:qr_full', 'slow'], consts={'c0': (3, 2), 'c1': (3, 2)})
+    add('cholesky(2x2)', _chol, shape=(2, 2), group='factor', tags=['fac:cholesky', 'symmetric'], consts={'cl': (2, 2)})
+    add('eigh(2x2)', _eigh, shape=(2, 2), group='factor', tags=['fac:eigh', 'symmetric'], consts={'cv': (2,), 'c0': (2, 2), 'c1': (2, 2)})
+    add('eigh-values(2x2)', _eigh_vals, shape=(2, 2), group='factor', tags=['fac:eigh', 'symmetric'])
+    add('lu(2x2)', _lu, shape=(2, 2), group='factor', tags=['lu'], consts={'cl': (2, 2), 'cu': (2, 2)})
+    # ---- fft (complex intermediates, real inputs and outputs) ---------------------------
+    add('real(fft(x,axis=0))', lambda A, x: A.real(A.fft.fft(x, axis=0)), shape=(2, 2), group='fft')
+    add('imag(fft(x,axis=0))', lambda A, x: A.imag(A.fft.fft(x, axis=0)), shape=(4, 2), group='fft')
+    add('real(fft(x))', lambda A, x: A.real(A.fft.fft(x)) * x, shape=(4,), group='fft')
+    add('real(ifft(fft(x,axis=0)*fft(x,axis=0),axis=0))', lambda A, x: A.real(A.fft.ifft(A.fft.fft(x, axis=0) * A.fft.fft(x, axis=0), axis=0)), shape=(2, 2), group='fft')
+    add('real(fft(x,axis=-1))+imag', lambda A, x: A.real(A.fft.fft(x, axis=-1)) + A.imag(A.fft.fft(x, axis=-1)), shape=(2, 2), group='fft')
     # ---- compositions --------------------------------------------------------------
     add('sum(x*exp(x)/(1+x0*x1)+sin(x)*x[::-1])', lambda A, x: A.sum(x * A.exp(x) / (1. + x[0] * x[1]) + A.sin(x) * x[::-1]), group='comp')
     add('exp(dot)', lambda A, x: A.exp(A.dot(x, x)) * x, group='comp')
